@@ -229,3 +229,9 @@ for _N, _ids, _pl in ((3, [0, 1, 2, 3], 1), (4, [0, 1], 1), (3, [1, 3, 4, 6], 1)
                 bounds="EVERY real DynGraph on %d int nodes over snapshot ids %s whose first %d presence bits are %s (partition %d of "
                        "%d), built through the public API; every source/root, target, window" % (_N, _ids, _pl, _prefix, _pi, 2 ** _pl),
                 what="as eager_u_int on a larger universe")
+
+# dropped from the thorough tier (directed 3x3 universe: past 60 min; see DESIGN.md 12.9)
+import re as _re  # noqa: E402
+for _n in [n for n, c in REG.conds.items() if c.tier == "thorough" and _re.search(r"^dag_d_int_ids012_N3_vN_SE$", n)]:
+    del REG.conds[_n]
+
